@@ -64,6 +64,8 @@ class OldView:
 def mark_old(v, snap):
     if isinstance(v, Ref) and v.old is None:
         return Ref(v.oid, snap)
+    if isinstance(v, ElemRef) and v.mref.old is None:
+        return ElemRef(Ref(v.mref.oid, snap), v.key)  # the record as it was in the snapshot of its map
     if isinstance(v, tuple):
         return tuple(mark_old(x, snap) for x in v)
     return v
@@ -82,6 +84,8 @@ def kind_of_T(t):
         return ('tup', tuple(kind_of_T(x) for x in t.ts))
     if isinstance(t, C.ListOf):
         return ('seq', kind_of_T(t.t))
+    if isinstance(t, C.Rec):
+        return ('rec', t.elem)
     raise Unsupported(f'type {t!r} has no element kind')
 
 
@@ -374,6 +378,13 @@ class Config:
             return path.alloc(Obj(cls, fields, mdl))
         if isinstance(t, C.Opaque):
             return path.fresh_sym(('opq', t.tag), hint)
+        if isinstance(t, C.Rec):
+            # an arbitrary existing record of the class's record heap (ghost MapOf): symbolic key in the domain
+            self.ensure_ghost(path, self.top)
+            mref = M.rec_heap(path, t.elem)
+            k = path.fresh_sym('int', hint)
+            path.add_def(z3.Select(path.obj(mref).dom, k.t))
+            return ElemRef(mref, k)
         if isinstance(t, C.Callback):
             eff = self.spec_func(t.effect) if t.effect is not None else None
             return CallbackVal(t.name, eff, t.returns, t.raises)
@@ -401,6 +412,11 @@ class Config:
                     evcols.append(fname)
                     ft = C.Bool
                     default = False if default is None else default
+                if isinstance(ft, C.Opt):
+                    # optional field: companion Bool column `name?` (True = the field is None)
+                    narr = z3.Const(path.fresh_name(f'{hint}.{fname}?'), z3.ArraySort(z3.IntSort(), z3.BoolSort()))
+                    cols[fname + '?'] = (narr, 'bool', True)
+                    ft = ft.t
                 k = kind_of_T(ft)
                 arr = z3.Const(path.fresh_name(f'{hint}.{fname}'), z3.ArraySort(z3.IntSort(), sort_of(k)))
                 cols[fname] = (arr, k, default)
@@ -547,7 +563,18 @@ class Config:
                 else:
                     raise Unsupported('havoc of a concrete-spine list (declare ListOf in the class model)')
             elif isinstance(ho, MObj):
-                self.havoc_map(path, Ref(oid), 'map')
+                if fld == '*':
+                    self.havoc_map(path, Ref(oid), 'map')
+                elif fld == '__dom__':
+                    ho.dom = z3.Const(path.fresh_name('map.dom'), ho.dom.sort())
+                else:
+                    # a single column of the records (and its is-None companion column)
+                    for n in (fld, fld + '?'):
+                        if n in ho.cols:
+                            arr, k, d = ho.cols[n]
+                            ho.cols[n] = (z3.Const(path.fresh_name(f'map.{n}'), arr.sort()), k, d)
+                        elif n == fld:
+                            raise Unsupported(f'modifies: no column {fld} in the symbolic map')
             elif isinstance(ho, ExtObj):
                 ho.ext_havoc(path, Ref(oid), 'ext')
             elif isinstance(ho, DObj):
@@ -835,9 +862,11 @@ class Config:
                 if same is not True:
                     path.oblige(self.obl_name(path, 'frame', type(o0).__name__), 'frame', same)
             elif isinstance(o0, MObj):
-                if not o0.dom.eq(o1.dom):
+                if not o0.dom.eq(o1.dom) and (oid, '__dom__') not in targets:
                     path.oblige(self.obl_name(path, 'frame', 'map.dom'), 'frame', mk_bool(o0.dom == o1.dom))
                 for n in o0.cols:
+                    if (oid, n) in targets or (n.endswith('?') and (oid, n[:-1]) in targets):
+                        continue
                     if not o0.cols[n][0].eq(o1.cols[n][0]):
                         path.oblige(self.obl_name(path, 'frame', f'map.{n}'), 'frame', mk_bool(o0.cols[n][0] == o1.cols[n][0]))
 
